@@ -3,6 +3,7 @@ package kit
 import (
 	"context"
 	"fmt"
+	"google.golang.org/grpc/stats"
 	"sync"
 
 	goat "github.com/avos-io/goat"
@@ -16,6 +17,9 @@ type Topo struct {
 	Clients   int    `json:"clients"`
 	// Raw: do not attach goat ClientConns; the test drives end A of each link by hand (scripted caller).
 	Raw bool `json:"raw,omitempty"`
+	// Stats: a do-nothing stats.Handler is installed on the server and on every client connection (configuration
+	// dimension: several code paths in goat only run when a stats handler is present)
+	Stats bool `json:"stats,omitempty"`
 }
 
 func (t Topo) String() string {
@@ -61,6 +65,10 @@ type World struct {
 func NewWorld(topo Topo, svc *Svc, sopts []goat.ServerOption, dopts []goat.DialOption) *World {
 	if topo.Clients < 1 {
 		topo.Clients = 1
+	}
+	if topo.Stats {
+		sopts = append(append([]goat.ServerOption{}, sopts...), goat.StatsHandler(NopStats{}))
+		dopts = append(append([]goat.DialOption{}, dopts...), goat.WithStatsHandler(NopStats{}))
 	}
 	w := &World{Topo: topo, Tap: NewTap(), ServeErrs: map[string]error{}, ServeDone: map[string]bool{}}
 	w.ctx, w.cancel = context.WithCancel(context.Background())
@@ -194,3 +202,11 @@ func (w *World) ServeResult(name string) (bool, error) {
 
 // CancelServeCtx cancels the context that was passed to Server.Serve.
 func (w *World) CancelServeCtx() { w.serveCancel() }
+
+// NopStats is a stats.Handler that does nothing.
+type NopStats struct{}
+
+func (NopStats) TagRPC(ctx context.Context, _ *stats.RPCTagInfo) context.Context   { return ctx }
+func (NopStats) HandleRPC(context.Context, stats.RPCStats)                         {}
+func (NopStats) TagConn(ctx context.Context, _ *stats.ConnTagInfo) context.Context { return ctx }
+func (NopStats) HandleConn(context.Context, stats.ConnStats)                       {}
